@@ -20,7 +20,8 @@ fn day(n: u32) -> NaiveDate { NaiveDate::from_ymd_opt(2024, 1, n).unwrap() }
 enum Src { Ledger, Db }
 /// on `day`, 1 `from` = `rate` `to`
 #[derive(Clone, Copy, Debug)]
-struct Fact { src: Src, day: u32, from: usize, to: usize, rate: &'static str, implied: bool }
+/// `form` (ledger facts): 0 `1 A @ r B`, 1 `-2 A @@ 2r B`, 2 `1 A {r B}`, 3 `3 A {{3r B}}`, 4 implied exchange `2 A` / `-2r B`
+struct Fact { src: Src, day: u32, from: usize, to: usize, rate: &'static str, form: u8 }
 
 const NAMES: [&str; 4] = ["AAA", "BBB", "CCC", "DDD"];
 
@@ -33,12 +34,17 @@ fn render(facts: &[Fact]) -> (String, String) {
     let mut db = String::new();
     for f in facts {
         match f.src {
-            Src::Ledger if f.implied => {
-                // two commodities left over: an implied exchange  2 from = (2 x rate) to
-                let r = d(f.rate) * d("2");
-                ledger.push_str(&format!("2024/01/{:02} implied\n    X    2 {}\n    Y    -{} {}\n\n", f.day, NAMES[f.from], r, NAMES[f.to]));
+            Src::Ledger => {
+                let r = d(f.rate);
+                let (a, b) = (NAMES[f.from], NAMES[f.to]);
+                match f.form {
+                    0 => ledger.push_str(&format!("2024/01/{:02} cost\n    X    1 {} @ {} {}\n    Y\n\n", f.day, a, r, b)),
+                    1 => ledger.push_str(&format!("2024/01/{:02} total cost\n    X    -2 {} @@ {} {}\n    Y\n\n", f.day, a, r * d("2"), b)),
+                    2 => ledger.push_str(&format!("2024/01/{:02} lot\n    X    1 {} {{{} {}}}\n    Y\n\n", f.day, a, r, b)),
+                    3 => ledger.push_str(&format!("2024/01/{:02} total lot\n    X    3 {} {{{{{} {}}}}}\n    Y\n\n", f.day, a, r * d("3"), b)),
+                    _ => ledger.push_str(&format!("2024/01/{:02} implied\n    X    2 {}\n    Y    -{} {}\n\n", f.day, a, r * d("2"), b)),
+                }
             }
-            Src::Ledger => ledger.push_str(&format!("2024/01/{:02} cost\n    X    1 {} @ {} {}\n    Y\n\n", f.day, NAMES[f.from], f.rate, NAMES[f.to])),
             Src::Db => db.push_str(&format!("P 2024/01/{:02} {} {} {}\n", f.day, NAMES[f.from], f.rate, NAMES[f.to])),
         }
     }
@@ -100,17 +106,17 @@ pub fn run(args: &[String]) -> i32 {
     let mut bad: Vec<(String, String)> = Vec::new();
     let mut evaluated = 0u64;
     let mut undecided = 0u64;
-    let f = |src, day, from, to, rate, implied| Fact { src, day, from, to, rate, implied };
+    let f = |src, day, from, to, rate, form| Fact { src, day, from, to, rate, form };
     let pool = [
-        f(Src::Ledger, 5, 0, 1, "2", false),
-        f(Src::Ledger, 10, 0, 1, "4", false),
-        f(Src::Ledger, 5, 1, 2, "5", false),
-        f(Src::Db, 7, 1, 2, "0.5", false),
-        f(Src::Ledger, 8, 2, 3, "2", true),
-        f(Src::Ledger, 3, 0, 3, "8", false),
-        f(Src::Db, 9, 0, 2, "10", false),
-        f(Src::Ledger, 20, 1, 0, "0.25", false),
-        f(Src::Db, 12, 3, 2, "0.8", false),
+        f(Src::Ledger, 5, 0, 1, "2", 0),
+        f(Src::Ledger, 10, 0, 1, "4", 1),
+        f(Src::Ledger, 5, 1, 2, "5", 2),
+        f(Src::Db, 7, 1, 2, "0.5", 0),
+        f(Src::Ledger, 8, 2, 3, "2", 4),
+        f(Src::Ledger, 3, 0, 3, "8", 3),
+        f(Src::Db, 9, 0, 2, "10", 0),
+        f(Src::Ledger, 20, 1, 0, "0.25", 0),
+        f(Src::Db, 12, 3, 2, "0.8", 0),
     ];
     let n = pool.len();
     let max_size = if thorough { 5 } else { 4 };
